@@ -1,29 +1,36 @@
 (* C02 - Valid values survive the wire encoding and the text encoding unchanged: property theorems.
    d ranges over ALL datatype trees (any depth/width), v over all valid values (Lemmas.valid: the C01 value set in
-   canonical form, finite floats, distinct struct keys, required members present), C over every codec (CPython's
-   b64encode / "%g" / repr / literal_eval as functions), E over every tabulation of b64decode.
+   canonical form, finite floats, scaled values on the grid of their scale, distinct struct keys, required members
+   present), C over every codec (CPython's b64encode / "%g" / repr / literal_eval as functions), E over every
+   tabulation of b64decode.
 
-   Full statement and what is proved here:
-   (wire)  export succeeds and import_value+validate on the node gives back a value equal (python ==) to v
-           -- C02_wire_roundtrip_except_scaled: proved for all trees whose double leaves have finite limits and
-              resolution and whose int leaves have limits within +-2^64 (what the constructors guarantee); bool, enum,
-              string, blob, int and double leaves and all containers (arrays, tuples, structs incl. the partial structs
-              of the client side) are proved, the double/int leaves through Flocq (x+0.0, clamp to +-max, tolerance
-              test, clamp to the limits keep an in-range number; int -> float -> round is exact).  Only for SCALED
-              leaf types the arithmetic fact (every grid value round-trips) remains the hypothesis num_rt: it is false
-              beyond 2^51 (C02_refuted_scaled_huge, open finding) and exercised by the correspondence.
+   (wire)  C02_wire_roundtrip: export succeeds and import_value+validate on the node gives back a value equal
+           (python ==) to v, for all trees satisfying the two boolean guards
+             num_limits_ok d      double leaves have finite limits/resolution, int leaves limits within +-2^64
+                                  (what the constructors guarantee), and
+             scaled_grid_small d  every scaled leaf has a positive normal scale <= 2^970, the grid indices
+                                  round(min/scale), round(max/scale) are at most 2^51 in magnitude and its extreme grid
+                                  values pass the window test of validate (min - scale < value < max + scale).
+           The scaled leaf is C02_scaled_grid_stable (Flocq: two roundings of relative error 2^-53 keep
+           fl(fl(k*s)/s) within 1/2 of k; exact for |k| = 2^51).  Beyond 2^51 the export is refuted
+           (C02_refuted_scaled_huge); the window conjunct can fail for limits that are not grid points once the index
+           exceeds about 2^50.68 (C02_refuted_scaled_window, new finding) - it is a decidable condition on the type,
+           and C02_scaled_guard_easy proves it from either of two plain conditions: indices up to 2^50 with
+           arbitrary finite limits, or indices up to 2^51 with limits on the grid (every client side type).
    (json kind)  checked by Run.check_case (kind_ok, strict_json on the model's export) and by the oracle; no theorem.
-   (client) the client side type (string rebuild repaired by 414a5ee): C02_client_imports_like_node - for every tree
-           whose enums list their members by ascending code, import_value of the rebuilt type equals import_value of
-           the node's type on EVERY json value; hence C02_client_roundtrip_except_scaled: the client obtains from the
-           exported form the very value the node obtains, which validates to a value == v.
-   (text)  refuted for -0.0 (C02_refuted_negzero_text); 1-tuples (repaired by 5f8afed) are written (x,) and accepted
-           back: C02_one_tuple_text_accepted; otherwise correspondence + oracle only.  setParameterFromString (repaired by 7a693b7: it now exports) is from_string
-           followed by the wire round trip: C02_setparam_roundtrip_except_scaled. *)
+   (client) C02_client_imports_like_node - for every tree whose enums list their members by ascending code,
+           import_value of the rebuilt type equals import_value of the node's type on EVERY json value; hence
+           C02_client_roundtrip: the client obtains from the exported form the very value the node obtains, which
+           validates to a value == v.
+   (text)  C02_text_roundtrip (LemmasText.v): the text form is accepted back and maps to a value with the identical
+           text form, equal to v on every non-float leaf, under the listed CPython codec laws, excluding by the
+           boolean guard text_ok: -0.0 (C02_refuted_negzero_text), scaled values whose six digit text is re-gridded to
+           a different text (C02_refuted_scaled_text, new finding), structs lacking optional members on a node side
+           type.  setParameterFromString is from_string followed by the wire round trip: C02_setparam_roundtrip. *)
 From Coq Require Import ZArith NArith Bool List.
 Import ListNotations.
 Require Import FV.Gen.C02 FV.Base.F64 FV.Base.PyVal FV.C01.Model FV.C01.Lemmas FV.C02.Model FV.C02.Run FV.C02.Lemmas
-  FV.C02.LemmasNum FV.C02.LemmasClient FV.C02.Refuted.
+  FV.C02.LemmasNum FV.C02.LemmasScaled FV.C02.LemmasText FV.C02.LemmasClient FV.C02.Refuted.
 
 (* obligations on the facts regenerated from /repo (Gen/C02.v) *)
 Theorem C02_source_facts :
@@ -36,12 +43,20 @@ Theorem C02_source_facts :
 Proof. repeat split; reflexivity. Qed.
 Print Assumptions C02_source_facts.
 
-Theorem C02_wire_roundtrip_except_scaled : forall E C, b64_law E C ->
-  forall d, num_leaves (leaf_ok E C) d -> forall v, valid d v = true ->
+Theorem C02_wire_roundtrip : forall E C, b64_law E C ->
+  forall d, num_limits_ok d = true -> scaled_grid_small d = true -> forall v, valid d v = true ->
   exists j w v', dt_export C d v = Ok j /\ dt_import E d j = Ok w /\ dt_validate d w PNone = Ok v' /\ py_eq v v' /\
                  w <> PNone.
-Proof. exact wire_roundtrip_except_scaled. Qed.
-Print Assumptions C02_wire_roundtrip_except_scaled.
+Proof. exact wire_roundtrip_all. Qed.
+Print Assumptions C02_wire_roundtrip.
+
+(* the scaled leaf in the model's own functions: for a positive normal scale s <= 2^970 and a grid index k with
+   |k| <= 2^51, every float f that is numerically fl(k * s) is exported as k: round(f / s) = k *)
+Theorem C02_scaled_grid_stable : forall s k kf f, scale_ok s = true -> (Z.abs k <= 2 ^ 51)%Z ->
+  float_of_Z k = Some kf -> feq f (fmul kf s) = true ->
+  scaled_export s (PFloat f) = Ok (PInt k).
+Proof. exact scaled_export_grid. Qed.
+Print Assumptions C02_scaled_grid_stable.
 
 (* the two numeric leaf facts on their own *)
 Theorem C02_int_leaf_exact : forall z, (Z.abs z <= 2 ^ 64)%Z -> int_call (PInt z) = Ok (PInt z).
@@ -56,13 +71,20 @@ Theorem C02_float_leaf_unchanged : forall mn mx a r g,
 Proof. exact float_validate_in_range. Qed.
 Print Assumptions C02_float_leaf_unchanged.
 
+(* two simpler sufficient conditions for the scaled guard, per scaled leaf: (a) positive normal scale <= 2^970, finite
+   limits and indices round(min/scale), round(max/scale) of magnitude at most 2^50, whatever the limits are; or
+   (b) indices up to 2^51 and limits that are grid values themselves (every client side type) *)
+Theorem C02_scaled_guard_easy : forall d, scaled_grid_easy d = true -> scaled_grid_small d = true.
+Proof. exact scaled_grid_easy_small. Qed.
+Print Assumptions C02_scaled_guard_easy.
+
 (* setParameterFromString(text) = from_string, export_value, node import_value + validate: an accepted text with a valid
    value w leaves the node with a value equal to w *)
-Theorem C02_setparam_roundtrip_except_scaled : forall C E d t w,
-  b64_law E C -> num_leaves (leaf_ok E C) d -> from_string C d t = Ok w -> valid d w = true ->
+Theorem C02_setparam_roundtrip : forall C E d t w,
+  b64_law E C -> num_limits_ok d = true -> scaled_grid_small d = true -> from_string C d t = Ok w -> valid d w = true ->
   exists v', set_from_string C E d d t = Ok v' /\ py_eq w v'.
-Proof. exact setparam_roundtrip_except_scaled. Qed.
-Print Assumptions C02_setparam_roundtrip_except_scaled.
+Proof. exact setparam_roundtrip_all. Qed.
+Print Assumptions C02_setparam_roundtrip.
 
 (* a tuple with one member is written (x,) and read back as a 1-tuple whose member is what __call__ makes of x *)
 Theorem C02_one_tuple_text_accepted : forall C d1 x t w y,
@@ -75,6 +97,19 @@ Proof.
 Qed.
 Print Assumptions C02_one_tuple_text_accepted.
 
+(* the text encoding: for every codec obeying the listed laws of CPython (literal_eval(repr(x)) == x for int, bool, str,
+   bytes; repr(True) = "True", repr(False) = "False"; the percent-g text of a finite float other than -0.0 denotes a
+   number whose percent-g text is that text again), every tree with int limits within +-2^64, every valid value within
+   the guard text_ok (no -0.0 leaf; scaled leaves whose six digit text re-grids to the same text; enum names without
+   surrounding blanks or duplicates; no struct lacking optional members on a node side type): whenever the text form t
+   exists, from_string accepts it, the value it returns has the identical text form (the same tree t, hence the same
+   rendered text) and is equal to v on every leaf that is not a double or scaled leaf *)
+Theorem C02_text_roundtrip : forall C, codec_laws C ->
+  forall d v t, num_limits_ok d = true -> valid d v = true -> text_ok C d v = true -> to_string C d v = Ok t ->
+  exists w, from_string C d t = Ok w /\ to_string C d w = Ok t /\ eq_nf d v w.
+Proof. exact text_roundtrip_laws. Qed.
+Print Assumptions C02_text_roundtrip.
+
 (* the client side of every string type is the string type itself (limits included) *)
 Theorem C02_client_string_faithful : forall minc maxc u, client_of (TString minc maxc u) = Ok (TString minc maxc u).
 Proof. reflexivity. Qed.
@@ -86,26 +121,89 @@ Theorem C02_client_imports_like_node : forall E d, enums_sorted d -> forall dc, 
 Proof. exact client_import_same. Qed.
 Print Assumptions C02_client_imports_like_node.
 
-Theorem C02_client_roundtrip_except_scaled : forall E C, b64_law E C ->
-  forall d dc, num_leaves (leaf_ok E C) d -> enums_sorted d -> client_of d = Ok dc -> forall v, valid d v = true ->
+Theorem C02_client_roundtrip : forall E C, b64_law E C ->
+  forall d dc, num_limits_ok d = true -> scaled_grid_small d = true -> enums_sorted d -> client_of d = Ok dc ->
+  forall v, valid d v = true ->
   exists j w v', dt_export C d v = Ok j /\ dt_import E dc j = Ok w /\ dt_import E d j = Ok w /\
                  dt_validate d w PNone = Ok v' /\ py_eq v v'.
 Proof.
-  intros E C HB d dc HL HS Hc v Hv.
-  destruct (wire_roundtrip_except_scaled E C HB d HL v Hv) as (j & w & v' & H1 & H2 & H3 & H4 & _).
+  intros E C HB d dc H1 H2 HS Hc v Hv.
+  destruct (wire_roundtrip_all E C HB d H1 H2 v Hv) as (j & w & v' & G1 & G2 & G3 & G4 & _).
   exists j, w, v'. rewrite (client_import_same E d HS dc Hc j). auto.
 Qed.
-Print Assumptions C02_client_roundtrip_except_scaled.
+Print Assumptions C02_client_roundtrip.
 
-(* non-vacuity: a nested type with int and double leaves satisfies every hypothesis of the round trip *)
+(* non-vacuity: a nested type with enum, bool, string, int, double and scaled leaves (decimal scale 0.1, limits 0 and
+   100 - the upper limit is not bit-identical to 1000 * 0.1) satisfies every guard, and a value with a grid point far
+   from zero is valid *)
+Definition s01' : f64 := fmk 3602879701896397 (-55).          (* 0.1 *)
 Definition demo_d : dtype :=
   TStruct [([97%N], TArray (TEnum [([120%N], 1%Z); ([121%N], 2%Z)]) 0 3);
-           ([98%N], TTuple [TBool; TString 0 5 false; TInt 0 5; TFloat fzero (of_Z 10) fzero fzero])]
+           ([98%N], TTuple [TBool; TString 0 5 false; TInt 0 5; TFloat fzero (of_Z 10) fzero fzero]);
+           ([99%N], TScaled s01' fzero (of_Z 100))]
           [[98%N]] true.
-Definition demo_v : pyval := PDict [([97%N], PTuple [PEnum [121%N] 2; PEnum [120%N] 1])].
-Example C02_demo : valid demo_d demo_v = true /\ num_leaves (leaf_ok E0 C0) demo_d /\
-  res_same (dt_export C0 demo_d demo_v) (Ok (PDict [([97%N], PList [PInt 2; PInt 1])])) = true.
+Definition demo_v : pyval :=
+  PDict [([97%N], PTuple [PEnum [121%N] 2; PEnum [120%N] 1]); ([99%N], PFloat (fmul (of_Z 997) s01'))].
+Example C02_demo : valid demo_d demo_v = true /\ num_limits_ok demo_d = true /\ scaled_grid_small demo_d = true /\
+  scaled_grid_easy demo_d = true /\
+  res_same (dt_export C0 demo_d demo_v) (Ok (PDict [([97%N], PList [PInt 2; PInt 1]); ([99%N], PInt 997)])) = true.
+Proof. repeat split; vm_compute; reflexivity. Qed.
+
+(* the guard is sharp in both of its arithmetic conjuncts: the type of C02_refuted_scaled_window has a good scale and
+   indices below 2^51 but fails the window conjunct; far_d has indices up to 2^51 and satisfies the guard *)
+Example C02_guard_window_needed :
+  scale_ok sw_s = true /\ (Z.abs (scaled_k sw_s sw_mn) <=? 2 ^ 51)%Z = true /\
+  (Z.abs (scaled_k sw_s sw_mx) <=? 2 ^ 51)%Z = true /\ scaled_leaf_small sw_s sw_mn sw_mx = false.
+Proof. repeat split; vm_compute; reflexivity. Qed.
+Definition far_d : dtype := TScaled s01' (fmul (of_Z (2 ^ 51 - 1000)) s01') (fmul (of_Z (2 ^ 51)) s01').
+Example C02_guard_reaches_2_51 :
+  scaled_grid_small far_d = true /\ scaled_grid_easy far_d = true /\ valid far_d (PFloat (fmul (of_Z (2 ^ 51 - 1)) s01')) = true.
+Proof. repeat split; vm_compute; reflexivity. Qed.
+
+(* non-vacuity of the text theorem: a tabulated codec that satisfies every law, and a nested value (struct, tuple, int,
+   double, string, bool, scaled) within all guards whose text is {'a': (5, 2.5, 'a', True, 2.5)} *)
+Definition f25 : f64 := fmk 5 (-1).
+Definition TX : tables :=
+  {| t_b64 := [];
+     t_fmt := [(f25, [50;46;53]%N)];
+     t_repr := [(PInt 5, [53]%N); (PStr [97%N], [39;97;39]%N); (PBool true, [84;114;117;101]%N);
+                (PBool false, [70;97;108;115;101]%N)];
+     t_lit := [([53]%N, PInt 5); ([39;97;39]%N, PStr [97%N]); ([84;114;117;101]%N, PBool true);
+               ([70;97;108;115;101]%N, PBool false); ([50;46;53]%N, PFloat f25)] |}.
+Definition CX : codec := codec_of TX.
+
+Lemma CX_laws : codec_laws CX.
 Proof.
-  split; [vm_compute; reflexivity|]. split; [|vm_compute; reflexivity].
-  cbn [num_leaves demo_d snd leaf_ok]. repeat split; try reflexivity; vm_compute; discriminate.
+  constructor.
+  - intros z s. cbn [CX codec_of TX c_repr c_lit t_repr t_lit lookup_by pv_same].
+    destruct (Z.eqb z 5) eqn:E; intros H; inversion H. apply Z.eqb_eq in E. subst. vm_compute. reflexivity.
+  - intros b s. destruct b; cbn [CX codec_of TX c_repr c_lit t_repr t_lit lookup_by pv_same Bool.eqb];
+      intros H; inversion H; vm_compute; reflexivity.
+  - intros s. cbn [CX codec_of TX c_repr c_lit t_repr t_lit lookup_by pv_same Bool.eqb]. intros H. inversion H. reflexivity.
+  - intros s. cbn [CX codec_of TX c_repr c_lit t_repr t_lit lookup_by pv_same Bool.eqb]. intros H. inversion H. reflexivity.
+  - intros x s. cbn [CX codec_of TX c_repr c_lit t_repr t_lit lookup_by pv_same].
+    destruct (str_eqb x [97%N]) eqn:E; intros H; inversion H. apply str_eqb_eq in E. subst. vm_compute. reflexivity.
+  - intros x s. cbn [CX codec_of TX c_repr c_lit t_repr t_lit lookup_by pv_same]. discriminate.
+  - intros f s _ _. cbn [CX codec_of TX c_fmt t_fmt lookup_by].
+    destruct (fsame f f25); intros H; inversion H.
+    exists (PFloat f25), (fadd f25 fzero). repeat split; vm_compute; reflexivity.
+Qed.
+
+Definition text_d : dtype :=
+  TStruct [([97%N], TTuple [TInt 0 5; TFloat fzero (of_Z 10) fzero fzero; TString 0 5 false; TBool;
+                           TScaled (fmk 1 (-1)) fzero (of_Z 10)])] [] false.
+Definition text_v : pyval := PDict [([97%N], PTuple [PInt 5; PFloat f25; PStr [97%N]; PBool true; PFloat f25])].
+Definition text_t : ptree :=
+  PB [([39;97;39]%N, PP [PA [53]%N; PA [50;46;53]%N; PA [39;97;39]%N; PA [84;114;117;101]%N; PA [50;46;53]%N])].
+Example C02_text_demo :
+  num_limits_ok text_d = true /\ scaled_grid_small text_d = true /\ valid text_d text_v = true /\
+  text_ok CX text_d text_v = true /\
+  (exists w, from_string CX text_d text_t = Ok w /\ to_string CX text_d w = Ok text_t /\ eq_nf text_d text_v w).
+Proof.
+  assert (H1 : num_limits_ok text_d = true) by (vm_compute; reflexivity).
+  assert (H2 : valid text_d text_v = true) by (vm_compute; reflexivity).
+  assert (H3 : text_ok CX text_d text_v = true) by (vm_compute; reflexivity).
+  assert (H4 : to_string CX text_d text_v = Ok text_t) by (vm_compute; reflexivity).
+  split; [exact H1|]. split; [vm_compute; reflexivity|]. split; [exact H2|]. split; [exact H3|].
+  exact (C02_text_roundtrip CX CX_laws text_d text_v text_t H1 H2 H3 H4).
 Qed.
